@@ -324,6 +324,28 @@ func (realComp) Exec(c *wire.Case, w *wire.Writer) {
 				}
 			}
 			if same {
+				// two runs of the same thing at the same time (no loggers: the logger list is shared, C15): a run
+				// draws from its own generator, so both must end like the run alone
+				var wg sync.WaitGroup
+				par := make([]*realOut, 2)
+				for i := range par {
+					wg.Add(1)
+					go func(i int) {
+						defer wg.Done()
+						par[i] = realRun(op, false)
+					}(i)
+				}
+				wg.Wait()
+				alone := realRun(op, false)
+				for i := range par {
+					if par[i].digest() != alone.digest() {
+						same = false
+						w.Ob(wire.R("differs").S("where", "overlapping-run").I("rep", i).I("line", -1).S("a", clip(alone.kind+":"+alone.digest())).S("b", clip(par[i].kind+":"+par[i].digest())).S("kinds", alone.kind+"/"+par[i].kind))
+						break
+					}
+				}
+			}
+			if same {
 				kind, dg, lines, err := freshRun(op)
 				if err != nil {
 					w.Ob(wire.R("workererr").S("msg", clip(err.Error())))
